@@ -1005,6 +1005,13 @@ func (e *SpecEnv) callExpr(v *ast.CallExpr) Val {
 				return Scalar{x.Arr, SRef, types.Typ[types.UnsafePointer]}
 			}
 			specFail("trig: unsupported element type")
+		case "lastresultb":
+			// boolean variant of lastresult
+			name, _ := strconv.Unquote(v.Args[0].(*ast.BasicLit).Value)
+			if r, ok := e.s.lastRes[name]; ok {
+				return r
+			}
+			return Scalar{e.c.freshConst(e.s, "nocall", SBool), SBool, types.Typ[types.Bool]}
 		case "lastresult":
 			// lastresult("callee"): result of the most recent call of callee on this path (unconstrained if none)
 			name, _ := strconv.Unquote(v.Args[0].(*ast.BasicLit).Value)
